@@ -185,3 +185,37 @@ func Harness_C09_note_step_grp3() { harnessC09NoteStep(verifKindGrp, 3) }
 func Harness_C09_note_step_chn3() { harnessC09NoteStep(verifKindChn, 3) }
 func Harness_C09_note_step_chn2() { harnessC09NoteStep(verifKindChn, 2) }
 func Harness_C09_note_step_p2p() { harnessC09NoteStep(verifKindP2P, 2) }
+
+// The description a user gets reports 0 <= read <= recv <= seq whatever marks the topic was loaded with: the
+// store can hold read > recv (known finding KF-read-note-beyond-recv), the reporting site must not pass it on.
+func Harness_C09_desc_reports_ordered_marks() {
+	fx := verifNewTopic(verifKindGrp, 2)
+	t := fx.topic
+	t.lastID = verifSeq("lastID")
+	u := fx.uids[1]
+	pud := t.perUser[u]
+	pud.modeWant, pud.modeGiven = types.ModeCPublic, types.ModeCPublic
+	pud.readID, pud.recvID = verifSeq("read"), verifSeq("recv")
+	verifAssume(pud.readID <= t.lastID && pud.recvID <= t.lastID)
+	t.perUser[u] = pud
+	for _, x := range fx.uids {
+		fx.store.users[x] = &types.User{State: types.StateOK, Access: types.DefaultAccess{Auth: types.ModeCAuth}}
+	}
+	s := verifNewSession("sid-a", u, auth.LevelAuth, 16)
+	fx.attach(s, u, false)
+	get := &ClientComMessage{Id: "g1", AsUser: u.UserId(), AuthLvl: int(auth.LevelAuth), Original: t.name, RcptTo: t.name,
+		Timestamp: types.TimeNow(), sess: s, init: true, MetaWhat: constMsgMetaDesc,
+		Get: &MsgClientGet{Id: "g1", Topic: t.name, MsgGetQuery: MsgGetQuery{What: "desc"}}}
+	t.handleMeta(get)
+	found := false
+	for _, r := range verifDrainSend(s) {
+		if r != nil && r.Meta != nil && r.Meta.Desc != nil {
+			found = true
+			d := r.Meta.Desc
+			verifAssert(0 <= d.ReadSeqId && d.ReadSeqId <= d.RecvSeqId && d.RecvSeqId <= d.SeqId, "reported-marks-ordered")
+			verifAssert(d.SeqId == t.lastID && d.ReadSeqId == pud.readID, "reported-read-and-seq-are-the-topics")
+		}
+	}
+	verifAssert(found, "description-answered")
+	verifReach("end")
+}
